@@ -869,7 +869,7 @@ func (c *Conn) handleReturn(ctx context.Context, ret rpccp.Return, releaseRet ca
 		q.p.Fulfill(pr.result)
 		q.bootstrapPromise.Fulfill(q.p.Answer().Client())
 		q.p.ReleaseClients()
-		clearCapTable(pr.result.Message())
+		clearCapTable(ret.Message())
 		releaseRet()
 		c.mu.Lock()
 	case q.bootstrapPromise != nil && pr.err != nil:
